@@ -215,11 +215,23 @@ def arm_read_bases(a, alg):
 
 def node_offset(lo):
     """In `(idx.floor() as isize - k) + 2*LEN` return k (0 if absent)."""
+    def const_int(e):
+        """value of an integer expression built from literals only (e.g. `8 / 2 - 1`), else None"""
+        e = strip_casts(e)
+        if e.get("k") == "lit" and e.get("ty") == "int":
+            return int(str(e["v"]).replace("_", "").rstrip("usizei") or 0)
+        if e.get("k") == "bin" and e["op"] in ("+", "-", "*", "/"):
+            a, b = const_int(e["l"]), const_int(e["r"])
+            if a is None or b is None or (e["op"] == "/" and b == 0):
+                return None
+            return {"+": a + b, "-": a - b, "*": a * b, "/": a // b if a >= 0 and b > 0 else None}[e["op"]]
+        return None
     for x in walk(lo):
-        if x.get("k") == "bin" and x["op"] == "-" and x["r"].get("k") == "lit":
+        if x.get("k") == "bin" and x["op"] == "-":
             inner = strip_casts(x["l"])
-            if inner.get("k") == "mcall" and inner["name"] == "floor":
-                return int(x["r"]["v"])
+            c = const_int(x["r"])
+            if inner.get("k") == "mcall" and inner["name"] == "floor" and c is not None:
+                return c
     return 0
 
 
